@@ -52,7 +52,7 @@ Depth(S, h) == IF S.parent[h] = 0 THEN 1 ELSE 1 + Depth(S, S.parent[h])
 
 CovZero == [known |-> 0, append |-> 0, conflictFresh |-> 0, conflictKnownLater |-> 0, beyond |-> 0,
             beyondKnownKey |-> 0, forkFromChild |-> 0, deepLookup |-> 0, appendOnForked |-> 0,
-            parentGrowsAfterFork |-> 0, histories |-> 0, adds |-> 0, maxHandles |-> 0,
+            parentGrowsAfterFork |-> 0, repeat |-> 0, repeatAtNextIndex |-> 0, repeatForked |-> 0, histories |-> 0, adds |-> 0, maxHandles |-> 0,
             devIndexDelegation |-> 0, devAddDiverges |-> 0, devAddSiblingNoop |-> 0]
 
 Bump(c, names) == [f \in DOMAIN c |-> IF f \in names THEN c[f] + 1 ELSE c[f]]
@@ -69,6 +69,9 @@ CovNames(S, h, i, p, kind, S2) ==
       \cup (IF c = "conflict" /\ j = -1 THEN {"conflictFresh"} ELSE {})
       \cup (IF c = "conflict" /\ j # -1 THEN {"conflictKnownLater"} ELSE {})
       \cup (IF c = "beyond" THEN {"beyond"} ELSE {})
+      \cup (IF c = "repeat" THEN {"repeat"} ELSE {})
+      \cup (IF c = "repeat" /\ i = Len(ViewS(S, h)) THEN {"repeatAtNextIndex"} ELSE {})
+      \cup (IF c = "repeat" /\ kind = "new" THEN {"repeatForked"} ELSE {})
       \cup (IF c = "beyond" /\ j # -1 THEN {"beyondKnownKey"} ELSE {})
       \cup (IF kind = "new" /\ S.parent[h] # 0 THEN {"forkFromChild"} ELSE {})
       \cup (IF \E x \in 1..S2.nh : /\ Depth(S2, x) >= 3 /\ S2.trusted[x] > 0
@@ -96,13 +99,28 @@ TraceAdd ==
       c0 == {o \in N : RetEq(o, e.ret) /\ ObsOK(e.views, o.S2, {})}
       c1 == {o \in N : RetEq(o, e.ret) /\ ObsOK(e.views, o.S2, KnownDeviations)}
       dv == CodeOutcome(S, e.h, e.i, e.p, KnownDeviations)
+      \* "repeat" answered with a new handle of whatever content: the content is what the code shows for it
+      obsOwn == LET pubs == e.views[S.nh + 1].pubs
+                    n == IF \E x \in 1..Len(pubs) : pubs[x] = NoKey
+                         THEN (CHOOSE x \in 1..Len(pubs) : pubs[x] = NoKey /\ \A y \in 1..(x - 1) : pubs[y] # NoKey) - 1
+                         ELSE Len(pubs)
+                IN  SubSeq(pubs, 1, n)
+      rf == NewHandle(S, 0, 0, obsOwn)
   IN
   /\ e.ev = "Add"
   /\ ~dead
   /\ e.h \in 1..nh
   /\ l' = l + 1
   /\ Keep
-  /\ IF c0 # {}
+  /\ IF /\ Class(S, e.h, e.i, e.p) = "repeat" /\ e.ret.kind = "new" /\ e.ret.h2 = S.nh + 1
+        /\ Len(e.views) = S.nh + 1
+     THEN \* lenient rule: a fork of whatever content, provided every live handle (the old ones unchanged) is
+          \* well-formed: no key twice, lookups mutually inverse on the view
+          /\ NoDupSeq(obsOwn)
+          /\ ObsOK(e.views, rf, {}) = TRUE
+          /\ SetSt(rf) /\ dead' = FALSE
+          /\ cov' = Bump(cov, CovNames(S, e.h, e.i, e.p, "new", rf))
+     ELSE IF c0 # {}
      THEN \* the normal action explains the event
           \E o \in c0 : /\ SetSt(o.S2) /\ dead' = FALSE
                         /\ cov' = Bump(cov, CovNames(S, e.h, e.i, e.p, o.kind, o.S2))
